@@ -3,7 +3,8 @@
 // Rules (DESIGN.md §3 C17):
 //
 //	R-C17-1  acquire / accept / release typestate of LimitListener.Accept        (c17.go, flow engine)
-//	R-C17-2  release exactly once per accepted connection (sync.Once, no alias)  (c17.go)
+//	R-C17-2  release exactly once per accepted connection (sync.Once, no alias),
+//	         and only after the inner Conn.Close returned                        (c17.go)
 //	R-C17-3  every serve loop of httpserver is capped; reload forwards the cap   (c17_http.go)
 //	R-C17-4  Semaphore resize bookkeeping (SetMaxCount / NewSem)                 (c17_sem.go, flow engine)
 //	R-C17-5  MQTT client-table insertion is under the broker lock and capped;
@@ -61,6 +62,13 @@
 //	B4 deleteSession: c.close() dropped before the delete        → R-C17-5 deleteSession|delete removes only a dead or own entry
 //	PB1 early-return + single-value lookup `val == nil || !val.disconnected()`; PB2 `dead := found &&
 //	   registered.disconnected()` with deferred Unlock             → silent
+//
+// Third pass (round-2 seeded change a): Close releases before closing
+//
+//	C1 `l.releaseOnce.Do(l.release); return l.Conn.Close()` (seeded); C2 `defer l.Conn.Close()` + release in the
+//	   body; C3 `go l.Conn.Close()` then release; C4 early release on one branch only; C5 inner Close dropped
+//	                                                            → R-C17-2 Close|releases only after the inner Close returned
+//	PC1 `defer l.releaseOnce.Do(...)`; return l.Conn.Close(); PC2 Once.Do(func(){ l.Conn.Close(); l.release() }) → silent
 //
 // Behaviour-preserving edits tried (exit 0 with the two findings registered as known):
 //
@@ -1047,13 +1055,84 @@ func c17Conn(c *core.Ctx) {
 		for _, d := range does {
 			isDo[d] = true
 		}
+		// the inner close: (net.Conn).Close on the wrapper's embedded connection, executed
+		// synchronously (a `go l.Conn.Close()` has not returned when the next statement runs)
+		pmClose := parentMap(f.Body)
+		isInnerClose := func(call *ast.CallExpr) bool {
+			fo := c17CalleeFunc(f, call)
+			if fo == nil || fo.FullName() != "(net.Conn).Close" {
+				return false
+			}
+			sel, ok := ast.Unparen(call.Fun).(*ast.SelectorExpr)
+			if !ok {
+				return false
+			}
+			recv := ast.Unparen(sel.X)
+			if o := c17Obj(f, recv); o != nil {
+				// a local assigned exactly once from the embedded connection
+				var rhs []ast.Expr
+				ast.Inspect(f.Body, func(n ast.Node) bool {
+					if as, ok := n.(*ast.AssignStmt); ok && len(as.Lhs) == len(as.Rhs) {
+						for i, l := range as.Lhs {
+							if c17Obj(f, l) == o {
+								rhs = append(rhs, as.Rhs[i])
+							}
+						}
+					}
+					return true
+				})
+				if len(rhs) == 1 {
+					recv = ast.Unparen(rhs[0])
+				}
+			}
+			fld := c17Field(f, recv)
+			if fld == nil || !fld.Embedded() || fld.Type().String() != "net.Conn" {
+				return false
+			}
+			_, isGo := pmClose[call].(*ast.GoStmt)
+			return !isGo
+		}
+		// Once.Do(func() { l.Conn.Close(); l.release() }): the order inside the literal
+		litClosesFirst := func(do *ast.CallExpr) bool {
+			lit, ok := ast.Unparen(do.Args[0]).(*ast.FuncLit)
+			if !ok {
+				return false
+			}
+			closed := false
+			for _, ic := range calls(lit.Body, false) {
+				if isInnerClose(ic) {
+					closed = true
+				}
+				if c17Field(f, ic.Fun) == r.relField {
+					return closed
+				}
+			}
+			return false
+		}
+		var early *flow.State
+		var earlyAt ast.Node
+		nDo := 0
 		res := analyze(c, f, flow.Config{NoHavoc: true,
 			OnCall: func(st *flow.State, call *ast.CallExpr, callee types.Object, deferred bool) {
+				if isInnerClose(call) {
+					st.Set("ev:c17:inner-closed", flow.True)
+				}
 				if isDo[call] {
+					nDo++
+					if !st.Is("ev:c17:inner-closed", flow.True) && !litClosesFirst(call) && early == nil {
+						early, earlyAt = st, call
+					}
 					st.Set("ev:c17:once-release", flow.True)
 				}
 			}})
 		if res != nil {
+			if early != nil {
+				c.Violate("R-C17-2", cons+"|releases only after the inner Close returned", pos(c, earlyAt),
+					"the slot is released before the underlying connection's Close has returned (or without closing it at all): an Accept blocked at the cap is woken and hands out a new connection while this one is still open, so maxConnections+1 accepted connections are open at that instant", witness(early)...)
+			} else if nDo > 0 {
+				c.Discharge("R-C17-2", cons+"|releases only after the inner Close returned", pos(c, does[0]),
+					sprintf("%d abstract states at Once.Do(release), all after the embedded Conn.Close() returned", nDo))
+			}
 			ok := len(res.Exits) > 0
 			var badSt *flow.State
 			var at ast.Node = f.Body
